@@ -14,7 +14,7 @@ def run(tier, seed, work):
     quick = tier == "quick"
     mc = [("MC_Bridge.tla", "MC_Bridge_deposits.cfg" if quick else "MC_Bridge_deposits_thorough.cfg")]
     per, depth, nj = (6, 40, 12) if quick else (25, 50, 12)
-    js = bc.jobs("c03", seed, per, depth, nj) + bc.jobs("c03deep", seed + 5, max(1, per // 2), depth, 4, mode="deep")
+    js = bc.jobs("c03", seed, per, depth, nj) + bc.jobs("c03deep", seed + 5, max(1, per // 2), depth, 4, mode="deep") + bc.jobs("c03burst", seed + 6, max(2, per // 2), depth, 3, mode="burst")
     # "at most once in the lifetime of the chain" spans restarts from an exported state: mixed histories with export / import
     # cycles, continued on the imported chain (the deposited set must survive, re-submitted deposits must be refused)
     rj = [("c03reimp_%d" % j, ["reimport", "-n", 2 if quick else 12, "-depth", 30, "-seed", seed * 1000 + 300 + j, "-mode", "bridge"]) for j in range(4 if quick else 8)]
